@@ -137,7 +137,7 @@ func modeOnceRejectedStorm(r *vlib.Run, mode string, trial int, rng *rand.Rand) 
 		hash = append(hash, sr.text)
 	}
 	r.SaveCurrent(map[string]interface{}{"mode": mode, "trial": trial, "entry_point": "subscribe",
-		"storm": fmt.Sprintf("%d concurrent connections x %d sessions, each a request drawn from the pool below, against one Server.Subscribe (cache state %d, stats %v, GOMAXPROCS %d, %d%% of the peers cancel right after their request)", workers, perWorker, state, withStats, procs, cancelPct),
+		"storm":        fmt.Sprintf("%d concurrent connections x %d sessions, each a request drawn from the pool below, against one Server.Subscribe (cache state %d, stats %v, GOMAXPROCS %d, %d%% of the peers cancel right after their request)", workers, perWorker, state, withStats, procs, cancelPct),
 		"request_pool": desc})
 
 	c := cache.New(knownTargets)
